@@ -599,6 +599,27 @@ def gen_faults(rng, n_random):
     return out
 
 
+def gen_async_burst(rng, n):
+    """C03/C04: many asynchronous frames between a command and its answer (a device in async mode streams register
+    updates): they are skipped, the call completes in that attempt with exactly one frame written"""
+    out = []
+    for i in range(n):
+        kind = rng.choice(KINDS + ["ping", "devid"])
+        addr = rand_addr(rng) if kind in KINDS else 0
+        value = rng.bytes(2)
+        k = [1, 3, 7, 8, 9, 12, 16, 17, 31, 40][i % 10]
+        burst = b"".join(async_frame(rng) for _ in range(k))
+        if kind == "ping":
+            ans, exp = ping_resp(), "ok"
+        elif kind == "devid":
+            ans, exp = done_resp(le(0xA053, 2)), "n%d" % 0xA053
+        else:
+            ans, exp = get_resp(addr, value), expect_for(kind, value)
+        out.append(Case("async-burst", [call(kind, addr, "n", exp)], react=[chunked(rng, burst + ans, 4)], cfg=rng.below(4),
+                        tags={"frames": "1"}))
+    return out
+
+
 def gen_cut_zero_check(rng, n):
     """C02/C01: an answer whose check byte is 0x00 and whose value ends in zero bytes, cut by a read timeout at
     every position (the rest arrives afterwards): every prefix that ends inside the trailing zeros is itself
@@ -691,6 +712,7 @@ def generate(tier, seed):
     cases += gen_devid_all(rng, 16 if q else 1)
     cases += gen_faults(rng, 2000 if q else 12000)
     cases += gen_cut_zero_check(rng, 8 if q else 40)
+    cases += gen_async_burst(rng, 60 if q else 300)
     cases += gen_big_noise(rng, 3 if q else 12)
     cases += gen_buffer_boundary(rng, q)
     return cases
